@@ -268,6 +268,11 @@ func runC11(c *an.Ctx) {
 			{"ID.ps.PIPE.SUB.STAGE", "fork_" + url.PathEscape("a.b/c d%2E"), fmt.Sprintf(chunkFmt, 1, 0), fmt.Sprintf(uniqFmt, uint16(0xbeef), uint32(0x00abcd)), "progress"},
 			{"ID.ps.PIPE.STAGE", "fork_" + url.PathEscape("k") + "/fork3", "", fmt.Sprintf(uniqFmt, uint16(1), uint32(2)), "split_complete"},
 			{"ID.ps.PIPE.STAGE", "fork_" + url.PathEscape("fork1.chnk2"), "", "", "join_errors"},
+			// call ids are identifiers: they may themselves begin with "fork", "chnk" or look like a uniquifier
+			{"ID.ps.PIPE.fork_samples", "fork_" + url.PathEscape("a.b"), fmt.Sprintf(chunkFmt, 1, 0), fmt.Sprintf(uniqFmt, uint16(7), uint32(9)), "complete"},
+			{"ID.ps.fork1.forker.STAGE", "fork0", "", "", "complete"},
+			{"ID.ps.PIPE.chnk7", "fork1", fmt.Sprintf(chunkFmt, 2, 11), "", "errors"},
+			{"ID.ps.PIPE.fork2", "fork3", "", fmt.Sprintf(uniqFmt, uint16(0xffff), uint32(0xffffff)), "split_complete"},
 		}
 		r := strings.NewReplacer(pairs...)
 		for _, s := range samples {
@@ -286,7 +291,11 @@ func runC11(c *an.Ctx) {
 			} else if okm {
 				okm = m[3] == ""
 			}
-			c.Check("J1", "round-trip("+s.id+")", reCall.Pos(), okm,
+			key := "round-trip(" + s.id + ")"
+			if !strings.HasSuffix(s.fq, ".STAGE") {
+				key = "round-trip(" + s.fq + "|" + s.id + ")"
+			}
+			c.Check("J1", key, reCall.Pos(), okm,
 				fmt.Sprintf("journal name %q assembled with the writer's constants must be split by the reader's regexp into exactly its components (got %q)", name, m))
 		}
 	}
